@@ -41,8 +41,8 @@ def check(ctx):
     C15.computed_field_clause(ctx)
     C15.computed_field_schema_clause(ctx)
     abstypes.r18_reuse_guard(ctx)
-    abstypes.r17_isinstance_order(ctx, [ctx.repo.func('dataflows.helpers.iterable_loader:iterable_storage.field_type')])
-    ft = ctx.repo.func('dataflows.helpers.iterable_loader:iterable_storage.field_type')
+    ft = ctx.N(ctx.repo.func('dataflows.helpers.iterable_loader:iterable_storage.field_type'))     # (a classifier helper is part of it)
+    abstypes.r17_isinstance_order(ctx, [ft])
     want = {'str': 'string', 'bool': 'boolean', 'int': 'integer', '(float, decimal.Decimal)': 'number', 'list': 'array',
             'dict': 'object', 'datetime.datetime': 'datetime', 'datetime.date': 'date'}
     got = {}
@@ -53,6 +53,12 @@ def check(ctx):
             c = n.body[0].value if isinstance(n.body[0], _ast.Expr) else None
             if isinstance(c, _ast.Call) and _u(c.func).endswith('.add') and isinstance(c.args[0], _ast.Constant):
                 got[_u(n.test.args[1])] = c.args[0].value
+            # the same chain handing the type name out through a local (an inlined classifier): `x = 'string'` ... types.add(x)
+            a_ = n.body[0]
+            if isinstance(a_, _ast.Assign) and isinstance(a_.targets[0], _ast.Name) and isinstance(a_.value, _ast.Constant) and \
+                    isinstance(a_.value.value, str) and any(isinstance(c2, _ast.Call) and _u(c2.func).endswith('.add') and c2.args and
+                                                           isinstance(c2.args[0], _ast.Name) for c2 in _ast.walk(ft.node)):
+                got[_u(n.test.args[1])] = a_.value.value
     from rules.abstypes import table_dispatch as _td
     for _subj, _pairs, _lp, _test, _pv in _td(ctx, ft):
         # table form: the loop body adds the pair's second element
